@@ -2,7 +2,7 @@
 import re
 from .facts import AnalysisError
 from .report import RuleResult
-from .sym import norm, show, strip, subterms
+from .sym import Exec, norm, show, strip, subterms
 from .cw import const_of, _uncast
 from .rules_cw import DGN, DISPOSE, TRY_DESTRUCT, handoffs, ptr_root, _path_consistent_with_arg
 
@@ -347,7 +347,7 @@ def rule_immediate(ctx):
     if nloops < 1 and not r.violations:
         raise AnalysisError("REC-IMMEDIATE: the loop over the popped edges was not found")
     # (3) periodic repin
-    ok = any(c.target == "ebr_impl::internal::Local::repin_without_collect" for (_, _, c) in b.calls())
+    ok = any(c.target in ("ebr_impl::internal::Local::repin_without_collect", "ebr_impl::internal::Local::repin_unless_foreign_guards") for (_, _, c) in b.calls())
     r.instance("periodic repin_without_collect present", ok)
     if not ok:
         r.violate(DGN, "repin", "no periodic re-pin during long disposals: the epoch cannot advance while one pass runs")
@@ -398,6 +398,21 @@ def rule_collect_reentry(ctx):
             r.violate(UNPIN, "reentry", "collect is reached without the re-entrancy flag having been tested clear and set "
                       "(tested=%s, set=%s): an unpin inside a deferred destructor starts a nested collection" % (tested, armed),
                       p.events[ci[0]].loc())
+        # F15: the flag in the Local covers one participant; during tear-down (thread-local handle gone) every cs()
+        # registers a fresh participant, so the guard must also be thread-wide: a thread-local Cell<bool>
+        def is_tls_cell(a):
+            return any(x[0] == "tlsval" for x in subterms(a))
+        t_tested = any(e.kind == "cond" and isinstance(e.term, tuple) and e.term[0] == "call" and
+                       norm(e.term[1]) == "std::cell::Cell::get" and is_tls_cell(e.term[2][0]) and e.value == 0 for e in pre)
+        t_sets = [e for e in pre if e.kind == "call" and e.ntarget == "std::cell::Cell::set" and is_tls_cell(e.args[0])]
+        t_armed = bool(t_sets) and const_of(t_sets[-1].args[1]) == 1
+        ok = t_tested and t_armed
+        r.instance("unpin collects only after testing a thread-wide flag clear and setting it", ok)
+        if not ok:
+            r.violate(UNPIN, "reentry-thread", "the re-entrancy guard of collect is per participant only (thread-local flag "
+                      "tested=%s, set=%s): after the thread-local handle is destroyed every cs() registers a fresh participant "
+                      "whose flag is clear, so a destructor that asks for a collection nests one, one stack level per expired "
+                      "bag" % (t_tested, t_armed), p.events[ci[0]].loc())
     # the re-entrancy flag is per participant, and at thread tear-down every cs() in a destructor registers a fresh one
     # that is finalized when its guard drops: finalize itself must therefore never schedule a collection, or each
     # dying participant collects inside the collection that made it die
@@ -443,4 +458,199 @@ def rule_collect_reentry(ctx):
     r.require(n, 1, "collect call paths in unpin")
     if nw < 2 and not r.violations:
         r.floor_failures.append("REC-COLLECT-REENTRY: found %d writes of Local.collecting, expected at least 2" % nw)
+    return r
+
+
+# ------------------------------------------------------------------------------------------
+def sync_call_graph(prog):
+    """call_graph plus what runs synchronously without being a direct call: Drop impls of dropped values (drop glue),
+    and the local impls of a local trait for a call that is not resolved (`C::finalize(..)`)."""
+    from .mir import Callee
+    g = {k: set(v) for k, v in call_graph(prog).items()}
+    impls = {}
+    for n in prog.bodies:
+        m = re.match(r"^<(.*) as ([\w:]+)(<.*>)?>::(\w+)$", n)
+        if m and not m.group(2).startswith(("std::", "core::", "alloc::")):
+            impls.setdefault((m.group(2), m.group(4)), []).append(n)
+    drops = {}
+    for n, b in prog.bodies.items():
+        if b.j.get("impl_trait") == "std::ops::Drop" and n.endswith("::drop"):
+            drops[re.sub(r"<.*$", "", b.j.get("impl_self") or "")] = n
+    # (what sits inside ManuallyDrop / MaybeUninit is not dropped by the glue)
+    contains = {a["path"]: {f["ty"] for v in a["variants"] for f in v["fields"]
+                            if "ManuallyDrop<" not in f["ty"] and "MaybeUninit<" not in f["ty"]} for a in prog.items["adts"]}
+
+    def drop_impls_of(ty, seen=None):
+        seen = seen if seen is not None else set()
+        out = set()
+        if "ManuallyDrop<" in ty or "MaybeUninit<" in ty:
+            return out
+        for w in re.sub(r"[<>,&'()\[\]; ]", " ", ty).split():
+            if w in seen:
+                continue
+            seen.add(w)
+            if w in drops:
+                out.add(drops[w])
+            for f in contains.get(w, ()):
+                out |= drop_impls_of(f, seen)
+        return out
+    for n, b in prog.bodies.items():
+        for bi in b.reachable():
+            tm = b.blocks[bi]["term"]
+            if tm["k"] == "drop":
+                g.setdefault(n, set()).update(drop_impls_of(tm["ty"]))
+            elif tm["k"] == "call":
+                c = Callee(tm)
+                if norm(c.target or "") == "std::mem::drop":
+                    for a in c.type_args():
+                        g.setdefault(n, set()).update(drop_impls_of(a["ty"]))
+                elif c.target and c.target not in prog.bodies:
+                    m = re.match(r"^<(.*) as ([\w:]+)(<.*>)?>::(\w+)$", c.full or c.target or "")
+                    key = (m.group(2), m.group(4)) if m else None
+                    if key is None and c.name and "::" in c.name:
+                        key = tuple(c.name.rsplit("::", 1))
+                    for i in impls.get(key, ()):
+                        g.setdefault(n, set()).add(i)
+    return g
+
+
+def _cell_name(t):
+    """a name for the Cell a `Cell::get/set/replace` works on: a Local field, or 'thread-local'"""
+    t = strip(t)
+    if any(x[0] == "tlsval" for x in subterms(t)):
+        return "thread-local"
+    while isinstance(t, tuple) and t[0] in ("ref", "deref"):
+        t = strip(t[1])
+    if isinstance(t, tuple) and t[0] == "field":
+        return str(t[1])
+    return None
+
+
+def _edge_guard(ctx, f, g, comp, graph):
+    """Is the edge f -> g of a recursion cycle cut by a guard that the code maintains?
+       flag : every path of f to the call of g tested Cell X clear and set it before the call
+       state: every path of f to the call of g tested Cell X == k, and g writes X := k' != k before it can continue
+              the cycle (finalize sets handle_count to 1 before it pins)"""
+    prog = ctx.prog
+    fb = prog.body(f)
+    reasons = set()
+    npaths = 0
+    for p in Exec(prog, unroll=2).paths(fb):
+        ci = [i for i, e in enumerate(p.events) if (e.kind == "call" and e.target == g and not e.frame) or
+              (e.kind == "drop" and not e.frame and g in graph.get(f, ()) and g.endswith("::drop") and
+               re.sub(r"<.*$", "", prog.body(g).j.get("impl_self") or "~") in (e.ty or ""))]
+        if not ci:
+            continue
+        npaths += 1
+        pre = p.events[:ci[0]]
+        tests = {}
+        for e in pre:
+            if e.kind == "cond" and isinstance(e.term, tuple) and e.term[0] == "call" and norm(e.term[1]) == "std::cell::Cell::get" \
+                    and isinstance(e.value, int):
+                nm = _cell_name(e.term[2][0])
+                if nm:
+                    tests[nm] = e.value
+            if e.kind == "cond" and isinstance(e.term, tuple) and e.term[0] == "bin" and e.term[1] == "Eq" and e.value == 1:
+                for a, b_ in ((e.term[2], e.term[3]), (e.term[3], e.term[2])):
+                    a = strip(a)
+                    if isinstance(a, tuple) and a[0] == "call" and norm(a[1]) == "std::cell::Cell::get" and const_of(b_) is not None:
+                        nm = _cell_name(a[2][0])
+                        if nm:
+                            tests[nm] = const_of(b_)
+        sets = {}
+        for e in pre:
+            if e.kind == "call" and e.ntarget == "std::cell::Cell::set" and const_of(e.args[1]) is not None:
+                nm = _cell_name(e.args[0])
+                if nm:
+                    sets[nm] = const_of(e.args[1])
+        found = None
+        for nm, v in tests.items():
+            if v == 0 and sets.get(nm) == 1:
+                found = "flag `%s` tested clear and set" % nm
+        if found is None:
+            # state guard: g rewrites the tested cell before doing anything else with the cycle
+            gb = prog.body(g)
+            for nm, v in tests.items():
+                okg = True
+                anyp = False
+                for q in ctx.ex.paths(gb):
+                    nxt = [i for i, e in enumerate(q.events) if (e.kind == "call" and e.target in comp and not e.frame) or
+                           (e.kind == "drop" and not e.frame) or
+                           (e.kind == "call" and e.ntarget == "std::mem::drop" and not e.frame)]
+                    if not nxt:
+                        continue
+                    anyp = True
+                    w = [const_of(e.args[1]) for e in q.events[:nxt[0]] if e.kind == "call" and e.ntarget == "std::cell::Cell::set"
+                         and _cell_name(e.args[0]) == nm]
+                    if not w or w[-1] is None or w[-1] == v:
+                        okg = False
+                if anyp and okg:
+                    found = "`%s` == %s required, and %s sets it to another value first" % (nm, v, g.split("::")[-1])
+        if found is None:
+            return None
+        reasons.add(found)
+    if npaths == 0:
+        return None
+    return "; ".join(sorted(reasons))
+
+
+def rule_no_unbounded_recursion(ctx):
+    """Every cycle of the synchronous call graph must be cut by a guard the code maintains; the cascade's cycle is the
+    depth-guarded one (REC-DEPTH-GUARD), the collection's re-entry is REC-COLLECT-REENTRY's."""
+    r = RuleResult("REC-NO-UNBOUNDED", ["C07", "C18", "C20"],
+                   "every cycle of the synchronous call graph (direct calls, drop glue, local trait impls) is cut by a "
+                   "re-entrancy flag or a state test that the code maintains")
+    prog = ctx.prog
+    g = sync_call_graph(prog)
+    comps = [c for c in _sccs(g) if len(c) > 1 or c[0] in g.get(c[0], ())]
+    n = 0
+    for comp in comps:
+        comp = sorted(comp)
+        if comp == [DGN]:
+            r.instance("cycle {dispose_general_node}: depth-guarded (REC-DEPTH-GUARD)", True)
+            n += 1
+            continue
+        if all(prog.body(x).file().endswith(("strong.rs", "weak.rs")) for x in comp):
+            # trait impls that delegate to the same trait of another type (fmt::Pointer for Rc -> for Tagged ..): the
+            # over-approximation of unresolved trait calls, no recursion on one value
+            continue
+        n += 1
+        r.functions.update(comp)
+        cut = None
+        sub = {k: g.get(k, set()) & set(comp) for k in comp}
+        # try to cut edges until the component is acyclic
+        cuts = []
+        changed = True
+        while changed:
+            changed = False
+            cyc = [c for c in _sccs(sub) if len(c) > 1 or c[0] in sub.get(c[0], ())]
+            if not cyc:
+                break
+            for c in cyc:
+                done = False
+                for f_ in sorted(c):
+                    for g_ in sorted(sub.get(f_, ())):
+                        if g_ not in c:
+                            continue
+                        why = _edge_guard(ctx, f_, g_, set(comp), g)
+                        if why:
+                            sub[f_] = sub[f_] - {g_}
+                            cuts.append("%s -> %s [%s]" % (f_.split("::")[-1], g_.split("::")[-1], why))
+                            changed = True
+                            done = True
+                            break
+                    if done:
+                        break
+        rest = [c for c in _sccs(sub) if len(c) > 1 or c[0] in sub.get(c[0], ())]
+        short = sorted(x.split("::")[-2].split("<")[0] + "::" + x.split("::")[-1] for x in comp)
+        ok = not rest
+        r.instance("cycle {%s}: cut by %s" % (", ".join(short)[:150], "; ".join(cuts) if cuts else "NOTHING"), ok)
+        if not ok:
+            worst = sorted(rest, key=len)[0]
+            r.violate(sorted(worst)[0], "cycle:" + "+".join(sorted(x.split("::")[-1] for x in worst))[:120],
+                      "unbounded recursion: %s call each other and no edge of the cycle is cut by a re-entrancy flag or state "
+                      "test (depth grows with the amount of work, e.g. one level per 64 removed participants)" %
+                      " -> ".join(sorted(x.split("::")[-2].split("<")[0] + "::" + x.split("::")[-1] for x in worst)),
+                      prog.body(sorted(worst)[0]).loc(0))
+    r.require(n, 2, "recursion cycles")
     return r
